@@ -449,11 +449,6 @@ impl<'s> Model<'s> {
         }
     }
 
-    fn set_stage(&mut self, tid: usize, s: u8) {
-        if let Some(Frame::Thunk { stage, .. }) = self.threads[tid].frames.last_mut() {
-            *stage = s;
-        }
-    }
 }
 
 // ---------------------------------------------------------------------------------------------
